@@ -131,8 +131,34 @@ instance (cw : String → Nat) (caps : Caps) (next : Grid) (grid : List (List DC
       (grid[r]?.bind (·[c]?)) = ((Expected.expectedC cw caps next)[r]?.bind (·[c]?))) := by
   infer_instance
 
+/-- Image cells are what `Sixel.Draw` places (`Cell{sixel: true}`, possibly restyled by `SetStyle`):
+    no grapheme of width > 1 in them.  The loop does not skip anything after an image cell, so a
+    *wide* image cell — which no call of the API can produce, the flag is unexported — would be
+    expected to shadow its right neighbour while the loop draws that neighbour
+    (`images_need_placed_cells`). -/
+def ImageCellsAsPlaced (cw : String → Nat) (next : Grid) : Prop :=
+  ∀ r ∈ next, ∀ c ∈ r, c.sixel = true → advance cw c = 0
+
 /-- **The display clause for screens with image cells — full statement, open.** -/
 def frame_displays_images_full : Prop :=
+  ∀ (cw : String → Nat) (f : Frame) (t : Term),
+    ImageCellsAsPlaced cw f.next →
+    Rest t → t.bad = none →
+    t.grid.length = f.next.length → f.last.length = f.next.length →
+    (∀ r ∈ t.grid, r.length = t.cols) → (∀ r ∈ f.next, r.length = t.cols) →
+    (∀ r ∈ f.last, r.length = t.cols) → t.rows = f.next.length →
+    (∀ r ∈ f.next, ∀ c ∈ r, 0 ≤ c.w ∧ WidthOk cw f.caps c) →
+    (f.refresh = false → Agree cw f.caps t f.last) →
+    cw "20" = 1 →
+    (f.refresh = true → ∀ r ∈ t.grid, WFRow 0 r) →
+    (f.cursorNext.visible = true →
+      (0 ≤ f.cursorNext.row ∧ f.cursorNext.row < t.rows) ∧ (0 ≤ f.cursorNext.col ∧ f.cursorNext.col < t.cols)) →
+    t.linkParams = "" →
+    (run cw t (renderFrameS cw f).2).bad = none ∧
+    ShowsOutsideImages cw f.caps f.next (run cw t (renderFrameS cw f).2).grid
+
+/-- The statement without `ImageCellsAsPlaced` (as it was written down in round 3). -/
+def frame_displays_images_unrestricted : Prop :=
   ∀ (cw : String → Nat) (f : Frame) (t : Term),
     Rest t → t.bad = none →
     t.grid.length = f.next.length → f.last.length = f.next.length →
@@ -147,6 +173,26 @@ def frame_displays_images_full : Prop :=
     t.linkParams = "" →
     (run cw t (renderFrameS cw f).2).bad = none ∧
     ShowsOutsideImages cw f.caps f.next (run cw t (renderFrameS cw f).2).grid
+
+/-- A model cell with the image flag AND a wide grapheme (2×1: such a cell, then `a`). -/
+def frameWideImage : Frame :=
+  { caps := {}, refresh := true, next := [[({ g := "f09f94a5", sixel := true } : Cell), { g := "61" }]],
+    last := [[({} : Cell), {}]], cursorNext := {}, cursorLast := {} }
+
+/-- **`ImageCellsAsPlaced` is necessary**: the unrestricted statement is false of the model — the
+    wide image cell is expected to shadow column 1 (`cont`, not "unknown pixels"), the loop draws `a` there. -/
+theorem images_need_placed_cells : ¬ frame_displays_images_unrestricted := by
+  intro h
+  have := (h cwEx frameWideImage (Term.init 2 1) ⟨by decide, by decide, by decide⟩ (by decide) (by decide) (by decide)
+    (by decide) (by decide) (by decide) (by decide)
+    (by intro r hr c hc
+        simp only [frameWideImage, List.mem_singleton] at hr; subst hr
+        simp only [List.mem_cons, List.not_mem_nil, or_false] at hc
+        rcases hc with rfl | rfl <;> exact ⟨by decide, Or.inl rfl⟩)
+    (fun h => absurd h (by decide)) (by decide)
+    (fun _ => VaxisModel.Props.C01Display.init_wf 2 1) (fun h => absurd h (by decide)) (by decide)).2 0 1 (by decide)
+  revert this
+  decide
 
 /-- The proved part: without image cells `ShowsOutsideImages` is `grid = expectedC` and holds. -/
 theorem frame_displays_images_partial (cw : String → Nat) (f : Frame) (t : Term)
